@@ -23,6 +23,7 @@ def answerLineBody (line : String) : String :=
     let body := match engine with
       | "iterq" => BodyE.iterq kv
       | "own" => BodyE.own kv
+      | "heap" => BodyE.heap kv
       | _ => "n/a"
     s!"{seq} {body}"
   | _ => "bad-line"
